@@ -213,6 +213,8 @@ kdf_case = st.fixed_dictionaries({
     "passlen": st.integers(0, 90), "saltlen": st.integers(0, 64), "iters": st.one_of(st.integers(1, 40), st.sampled_from([1, 2, 1000])),
     "outlen": st.one_of(st.integers(1, 100), st.sampled_from([1, 31, 32, 33, 63, 64, 65, 96])),
     "hsalt": st.integers(0, 100), "ikm": st.integers(0, 100), "info": st.integers(0, 100), "L": st.integers(1, 8 * 64),
+    # output length relative to RFC 5869's maximum 255 * HashLen: the largest lengths must work, anything beyond must be refused
+    "Lsel": st.sampled_from(["gen"] * 6 + ["max", "max", "max-1", "max-dl", "max-dl+1", "max+1", "max+dl"]),
     "zlen": st.integers(0, 200), "klen": st.integers(0, 200), "cuts": st.lists(st.integers(0, 200), max_size=3)})
 
 
@@ -245,16 +247,30 @@ def kdf(case, ctx):
     r = l.hkdf_extract(d, Buf.of(hs) if hs else None, len(hs), Buf.of(ikm), len(ikm), prk, ctypes.byref(pl))
     eprk = hkdf_extract(alg, hs, ikm)
     ctx.check(r == 1 and pl.value == dl and prk.raw() == eprk, "hkdf_extract(%s, saltlen=%d, ikmlen=%d) differs" % (alg, len(hs), len(ikm)), "hkdf/extract")
-    okm = Buf(L, fill=0)
+    Lsel = case.get("Lsel", "gen")
+    if Lsel != "gen":
+        L = 255 * dl + {"max": 0, "max-1": -1, "max-dl": -dl, "max-dl+1": 1 - dl, "max+1": 1, "max+dl": dl}[Lsel]
+    over = L > 255 * dl
+    okm = Buf(L + 64, fill=0x5A)
     r = l.hkdf_expand(d, Buf.of(eprk), dl, Buf.of(info) if info else None, len(info), L, okm)
-    ctx.check(r == 1 and okm.raw() == hkdf_expand(alg, eprk, info, L), "hkdf_expand(%s, infolen=%d, L=%d) differs" % (alg, len(info), L), "hkdf/expand")
+    if over:
+        ctx.check(r != 1, "hkdf_expand(%s) reports success for L = %d > 255 * HashLen" % (alg, L), "hkdf/expand/over-max")
+    else:
+        ctx.check(r == 1 and okm.raw(L) == hkdf_expand(alg, eprk, info, L), "hkdf_expand(%s, infolen=%d, L=%d) differs (ret=%d)" % (alg, len(info), L, r),
+                  "hkdf/expand" + ("/at-max" if Lsel != "gen" else ""))
+    ctx.check(okm.raw(64, L) == b"\x5A" * 64, "hkdf_expand(%s, L=%d) wrote past the L bytes of output" % (alg, L), "hkdf/expand/overrun")
     if alg == "sm3":
         prk = Buf(32, fill=0)
         r = l.sm3_hkdf_extract(Buf.of(hs) if hs else None, len(hs), Buf.of(ikm), len(ikm), prk)
         ctx.check(r == 1 and prk.raw() == eprk, "sm3_hkdf_extract differs", "hkdf/sm3_extract")
-        okm = Buf(L, fill=0)
+        okm = Buf(L + 64, fill=0x5A)
         r = l.sm3_hkdf_expand(Buf.of(eprk), Buf.of(info) if info else None, len(info), L, okm)
-        ctx.check(r == 1 and okm.raw() == hkdf_expand("sm3", eprk, info, L), "sm3_hkdf_expand(L=%d) differs" % L, "hkdf/sm3_expand")
+        if over:
+            ctx.check(r != 1, "sm3_hkdf_expand reports success for L = %d > 255 * 32" % L, "hkdf/sm3_expand/over-max")
+        else:
+            ctx.check(r == 1 and okm.raw(L) == hkdf_expand("sm3", eprk, info, L), "sm3_hkdf_expand(L=%d) differs (ret=%d)" % (L, r),
+                      "hkdf/sm3_expand" + ("/at-max" if Lsel != "gen" else ""))
+        ctx.check(okm.raw(64, L) == b"\x5A" * 64, "sm3_hkdf_expand(L=%d) wrote past the L bytes of output" % L, "hkdf/sm3_expand/overrun")
     # SM3-KDF (streaming) and sm2_kdf (one-shot)
     z = content(case["zlen"], 0, seed + 5)
     klen = case["klen"]
